@@ -180,7 +180,7 @@ def exhaustive_pairs():
 
 
 def run(ctx):
-    ok = ctx.build(['props/C03.vo', 'run/MarkupRun.vo'])
+    ok = ctx.build(['props/C03.vo', 'run/MarkupRun.vo', 'run/AttrRun.vo'])
     if ok:
         ctx.obligations('props/C03.v')
     model = ctx.model('markup') if ok else None
@@ -253,6 +253,8 @@ def run(ctx):
                     ctx.broken.append({'kind': 'correspondence', 'file': 'markup-C03', 'input': abbr, 'config': canon_cfg(cfg),
                                        'impl': repr(impl[k])[:300], 'model': repr(mo)[:300]})
     ctx.cov['correspondence']['markup_C03'] = {'cases': len(wires), 'disagreements': dis}
+    if ok:
+        au.compare_trees(ctx, 'C03', [(c[0], c[1]) for c in cases])
     ctx.cov['corpus_cases'] = n_corpus
     for (abbr, cfg, exp, mode), r in list(zip(cases, impl))[n_corpus + 3000:n_corpus + 3004]:
         ctx.sample({'abbr': abbr, 'config': cfg, 'output': r[1][:160] if r[0] == 'ok' else r})
